@@ -68,7 +68,7 @@ let scenario toks =
             | 'L' | 'r' -> Recv (d, MROAccessReport, None, false)
             | 'e' -> Recv (d, MReaderEventNotification, None, false)
             | 'K' -> KeepAliveAck d
-            | 'C' | 'T' | 'G' -> Command d
+            | 'C' | 'T' | 'G' | 'P' -> Command d
             | 'F' -> KeepAliveAck d                                     (* receive side stalled, keep-alives *)
             | 'U' -> if v mod 2 = 1 then newconn () else Command d   (* moved to its other address: reconnects *)
             | 'X' -> newconn ()                                      (* outage: reconnects *)
